@@ -79,6 +79,13 @@ impl PartialOrdSpecImpl for DateTime<Utc> {
     }
 }
 impl PartialOrd for DateTime<Utc> { #[verifier::external_body] fn partial_cmp(&self, other: &Self) -> Option<Ordering> { unimplemented!() } }
+impl DateTime<Utc> {
+    pub open spec fn secs(&self) -> int { self.t@ / 1_000_000_000 }
+    // whole seconds since the epoch (floor); assumed to fit (chrono's range)
+    #[verifier::external_body]
+    pub fn timestamp(&self) -> (r: i64) ensures r as int == self.secs() { unimplemented!() }
+}
+impl Utc { #[verifier::external_body] pub fn now() -> DateTime<Utc> { unimplemented!() } }
 
 // ===== payload types (fields of PayloadHistory)
 #[verifier::external_body] pub struct PayloadSnapshot { _opaque: () }
@@ -92,6 +99,10 @@ impl PayloadDelta { pub uninterp spec fn serial_spec(&self) -> Serial; }
 impl PayloadHistory {
     #[verifier::external_body]
     fn serial(&self) -> (res: Serial) ensures res == self.cur() { unimplemented!() }
+    #[verifier::external_body]
+    fn rtr_session(&self) -> (res: u16) ensures res == self.session as u16 { unimplemented!() }
+    #[verifier::external_body]
+    fn is_active(&self) -> (res: bool) ensures res == self.current.is_some() { unimplemented!() }
 }
 
 // ===== the lock, as in units/history_locks/env.rs (readers only)
@@ -118,6 +129,8 @@ impl Request {
     #[verifier::external_body] pub fn uri(&self) -> &Uri { unimplemented!() }
     #[verifier::external_body] pub fn is_head(&self) -> bool { unimplemented!() }
     #[verifier::external_body] pub fn is_api(&self) -> bool { unimplemented!() }
+    #[verifier::external_body] pub fn is_get_or_head(&self) -> bool { unimplemented!() }
+    #[verifier::external_body] pub fn is_post(&self) -> bool { unimplemented!() }
 }
 impl Uri {
     #[verifier::external_body] pub fn path(&self) -> &str { unimplemented!() }
@@ -176,6 +189,11 @@ pub fn parse_http_date(date: &str) -> (r: Option<DateTime<Utc>>) ensures r == pa
 impl StatusCode {
     pub const OK: StatusCode = StatusCode { code: 200 };
     pub const NOT_MODIFIED: StatusCode = StatusCode { code: 304 };
+    pub const BAD_REQUEST: StatusCode = StatusCode { code: 400 };
+    pub const NOT_FOUND: StatusCode = StatusCode { code: 404 };
+    pub const METHOD_NOT_ALLOWED: StatusCode = StatusCode { code: 405 };
+    pub const INTERNAL_SERVER_ERROR: StatusCode = StatusCode { code: 500 };
+    pub const SERVICE_UNAVAILABLE: StatusCode = StatusCode { code: 503 };
 }
 pub enum Body { Empty, Text, Snapshot(Arc<PayloadSnapshot>) }
 #[verifier::external_body] pub struct ContentType { _opaque: () }
@@ -191,6 +209,14 @@ impl Response {
     pub fn initial_validation(api: bool) -> (r: Response) ensures r.status_spec() == 503, r.body_spec() is Text { unimplemented!() }
     #[verifier::external_body]
     pub fn bad_request<M>(api: bool, message: M) -> (r: Response) ensures r.status_spec() == 400, r.body_spec() is Text { unimplemented!() }
+    #[verifier::external_body]
+    pub fn not_found(api: bool) -> (r: Response) ensures r.status_spec() == 404, r.body_spec() is Text { unimplemented!() }
+    #[verifier::external_body]
+    pub fn method_not_allowed(api: bool) -> (r: Response) ensures r.status_spec() == 405, r.body_spec() is Text { unimplemented!() }
+    #[verifier::external_body]
+    pub fn internal_server_error(api: bool) -> (r: Response) ensures r.status_spec() == 500, r.body_spec() is Text { unimplemented!() }
+    #[verifier::external_body]
+    pub fn error<M>(api: bool, status: StatusCode, message: M) -> (r: Response) ensures r.status_spec() == status.code, r.body_spec() is Text { unimplemented!() }
 }
 impl ResponseBuilder {
     pub uninterp spec fn status_spec(&self) -> u16;
